@@ -98,11 +98,12 @@ func classify(m *diam.Message) (idx int, pure bool) {
 }
 
 type chunkReader struct {
-	data   []byte
-	chunks []int
-	pos    int
-	left   int // bytes left in the current chunk
-	ci     int
+	eofWithLast bool // the Read that returns the last byte returns io.EOF with it (as iotest.DataErrReader)
+	data        []byte
+	chunks      []int
+	pos         int
+	left        int // bytes left in the current chunk
+	ci          int
 }
 
 func (r *chunkReader) Read(p []byte) (int, error) {
@@ -120,16 +121,24 @@ func (r *chunkReader) Read(p []byte) (int, error) {
 	copy(p, r.data[r.pos:r.pos+n])
 	r.pos += n
 	r.left -= n
+	if r.eofWithLast && r.left == 0 && r.ci >= len(r.chunks) {
+		return n, io.EOF
+	}
 	return n, nil
 }
 
 func runStreamDirect(id int, c *streamCase, dp *dict.Parser) streamLine {
-	l := streamLine{Ev: "stream", ID: id, Path: "readmessage", Exact: true, Lens: c.Lens, Total: c.Total, Chunks: c.Chunks, Results: []streamResult{}}
+	return runStreamDirectX(id, c, dp, false)
+}
+
+// eofWithLast: the source returns its last bytes and io.EOF in the same Read call
+func runStreamDirectX(id int, c *streamCase, dp *dict.Parser, eofWithLast bool) streamLine {
+	l := streamLine{Ev: "stream", ID: id, Path: map[bool]string{false: "readmessage", true: "readmessage+eof-with-data"}[eofWithLast], Exact: true, Lens: c.Lens, Total: c.Total, Chunks: c.Chunks, Results: []streamResult{}}
 	data := streamBytes(c.Lens)
 	if c.Total < len(data) {
 		data = data[:c.Total]
 	}
-	r := &chunkReader{data: data, chunks: c.Chunks}
+	r := &chunkReader{data: data, chunks: c.Chunks, eofWithLast: eofWithLast}
 	p := safely(func() {
 		for k := 0; k < len(c.Lens)+2; k++ {
 			m, err := diam.ReadMessage(r, dp)
@@ -283,6 +292,9 @@ func Stream(a Args) error {
 	run := func(c *streamCase) {
 		id++
 		out.Emit(runStreamDirect(id, c, vp))
+		if id%3 == 0 {
+			out.Emit(runStreamDirectX(id, c, vp, true))
+		}
 		out.Emit(runStreamConn(id, c, vp, 0))
 		out.Emit(runStreamConn(id, c, vp, 1+id%2))
 		if id%timeoutEvery == 0 {
